@@ -1089,14 +1089,24 @@ func TestSenderBounded(t *testing.T) {
 			s.respond(t, "unanswered", "api", un[len(un)-1])
 		}
 		world.Label(fmt.Sprintf("bounded/answered-first=%d", answeredFirst))
+		strayWrites := rapid.Bool().Draw(t, "writeResultsInBetween")
+		var strayRef uint64
+		world.Label(fmt.Sprintf("bounded/write-results-in-between=%v", strayWrites))
 		// a few notifications and other datagrams in between keep the counters of requests non-contiguous
 		for i := 0; i < n; i++ {
 			if out := s.doRequest(t, model.CmdClassifierTypeRead, 0, i%nDests, s.serial, false); out != "written" {
 				t.Fatalf("harness: distinct request %d was %s", i, out) // unreachable: judgeRequest fails first
 			}
 			s.serial++
-			if i%17 == 3 {
+			// the result of an earlier write arrives: a response whose reference is no cached request,
+			// while newer requests are unanswered
+			if strayWrites && strayRef != 0 {
+				s.respond(t, "non-request", "api", strayRef)
+				strayRef = 0
+			}
+			if i%17 == 3 || (strayWrites && i%4 == 2) {
 				s.doOther(t, "write", 0, 0, 1)
+				strayRef = s.m.max
 			}
 		}
 		s.trace = []string{fmt.Sprintf("%d distinct reads", n)}
